@@ -1,3 +1,295 @@
-import DnsModel.Renamer
+/-
+  C07 — Renaming rewrites exactly the matching names and nothing else.
+  For every accepted packet (compressed or not), every pair of well-formed, pointer-free, non-root
+  names `src`, `tgt` and both modes:
+  * `rename_spec`: either the call returns a packet that satisfies the acceptance policy, has the
+    input's 12 header bytes, and whose question and records are, one by one and in order, the
+    input's with every name the library understands replaced by its renaming (`Renamed`: the name,
+    or in suffix mode a suffix of it on a label boundary, that equals `src` up to case is replaced by
+    `tgt`; anything else is kept) up to ASCII case, all other bytes (type, class, TTL, opaque data,
+    OPT) identical — or it fails with `InvalidName` and some renamed name would exceed 255 bytes;
+  * `rename_self`: renaming a name to itself keeps every name up to case and never fails.
+-/
+import DnsModel.Lemmas.RenameRun
+import DnsModel.Theorems.C06
 namespace Dns.C07
+open Dns Res
+
+/-- some name of the message overflows under the renaming -/
+def Overflow (src tgt : List (List UInt8)) (sfx : Bool) (u : Bytes) (L : C03.Layout u) : Prop :=
+  (∃ ls lsr, ValidName u 12 ls L.qe ∧ Renamed src tgt sfx ls lsr ∧ 255 < wireLen lsr) ∨
+  ∃ r ∈ L.answers ++ L.authority ++ L.additional, RecOverflow (Renamed src tgt sfx) u r
+
+private theorem section_fold {pp : PP} {sec : Section} {l : List RecPos} {off e : Nat} {ob oe : Bool}
+    {src tgt : List (List UInt8)} (hs : ArgName src) (ht : ArgName tgt) (sfx : Bool)
+    (hl : RRsL pp.packet sec l off ob e oe) (hlen : l.length < 65536)
+    (hwalk : ∃ cs, collectWalk pp nextIncludingOpt (l.length + 1) (Cursor.new sec) = .ok cs ∧ cs.map posOf = l.map some)
+    (dict : SuffixDict) (out : Bytes) (hinv : DictInv dict out) :
+    (∃ (dict' : SuffixDict) (em : Bytes),
+      walkFold pp nextIncludingOpt (renameResponseItem pp (encLabels tgt ++ [0]) (encLabels src ++ [0]) sfx) sectionFuel
+        (Cursor.new sec) (dict, out) = .ok (dict', out ++ em) ∧
+      DictInv dict' (out ++ em) ∧
+      ∀ tl : Bytes, ∃ l', RRsL (out ++ em ++ tl) sec l' out.length ob (out.length + em.length) oe ∧
+        RunRen (Renamed src tgt sfx) pp.packet (out ++ em ++ tl) l l' ∧
+        l'.map (fun r => get16 (out ++ em ++ tl) r.ne) = l.map (fun r => get16 pp.packet r.ne)) ∨
+    (walkFold pp nextIncludingOpt (renameResponseItem pp (encLabels tgt ++ [0]) (encLabels src ++ [0]) sfx) sectionFuel
+        (Cursor.new sec) (dict, out) = .err .invalidName ∧ ∃ r ∈ l, RecOverflow (Renamed src tgt sfx) pp.packet r) := by
+  obtain ⟨cs, hcs, hpos⟩ := hwalk
+  have hm := collectWalk_mono _ _ _ hcs (sectionFuel - (l.length + 1))
+  have e : l.length + 1 + (sectionFuel - (l.length + 1)) = sectionFuel := by unfold sectionFuel; omega
+  rw [e] at hm
+  rw [walkFold_collect _ _ _ _ hm]
+  exact fold_rename hs ht sfx hl cs hpos dict out hinv
+
+/-- **renaming an accepted packet** -/
+theorem rename_spec {u : Bytes} {v : View} (h : parse u = .ok v) (L : C03.Layout u) {src tgt : List (List UInt8)}
+    (hs : ArgName src) (ht : ArgName tgt) (sfx : Bool) :
+    (∃ c, renameWithRawNames (PP.ofView u v) (encLabels tgt ++ [0]) (encLabels src ++ [0]) sfx = .ok c ∧ WF c ∧
+      c.take 12 = u.take 12 ∧
+      ∃ L' : C03.Layout c,
+        (∃ ls lsr ls', ValidName u 12 ls L.qe ∧ Renamed src tgt sfx ls lsr ∧ ValidName c 12 ls' L'.qe ∧ lsCi ls' lsr ∧
+          (c.drop L'.qe).take 4 = (u.drop L.qe).take 4) ∧
+        RunRen (Renamed src tgt sfx) u c L.answers L'.answers ∧ RunRen (Renamed src tgt sfx) u c L.authority L'.authority ∧
+        RunRen (Renamed src tgt sfx) u c L.additional L'.additional) ∨
+    (renameWithRawNames (PP.ofView u v) (encLabels tgt ++ [0]) (encLabels src ++ [0]) sfx = .err .invalidName ∧
+      Overflow src tgt sfx u L) := by
+  obtain ⟨L0, hl, v1, v2, v3, v4, _, _⟩ := C03.layout_full h
+  obtain ⟨eq0, ea0, en0, er0⟩ := C05.layout_unique L0 L
+  rw [eq0, ea0] at v2
+  rw [en0] at v3
+  rw [er0] at v4
+  have hwf := C02.accepted_wf u v h
+  obtain ⟨_, hqd, qeW, hneW, _, hclW, hqr, _⟩ := hwf
+  have hqeW : qeW = L.qe := nameEnds_functional hneW L.hq.1
+  subst hqeW
+  have he2 : L0.e2 = L.e2 := by
+    have := L0.ha; rw [eq0] at this
+    exact (this.functional L.ha (by rw [L0.na, L.na])).2
+  have he3 : L0.e3 = L.e3 := by
+    have := L0.hn; rw [he2] at this
+    exact (this.functional L.hn (by rw [L0.nn, L.nn])).2
+  rw [he2] at v3
+  rw [he3] at v4
+  have ia : secInfo (PP.ofView u v) .answer = .ok (L.answers.length, if L.answers.length > 0 then some (L.qe + 4) else none) := by
+    simp [secInfo, PP.ofView, ancount, (be16_ok_of_le (p := u) (i := 6) (by omega)).1, L.na, v2]
+  have inn : secInfo (PP.ofView u v) .nameServers = .ok (L.authority.length, if L.authority.length > 0 then some L.e2 else none) := by
+    simp [secInfo, PP.ofView, nscount, (be16_ok_of_le (p := u) (i := 8) (by omega)).1, L.nn, v3]
+  have ir : secInfo (PP.ofView u v) .additional = .ok (L.additional.length, if L.additional.length > 0 then some L.e3 else none) := by
+    simp [secInfo, PP.ofView, arcount, (be16_ok_of_le (p := u) (i := 10) (by omega)).1, L.nr, v4]
+  have wa := walk_incl (pp := PP.ofView u v) L.ha ia
+  have wn := walk_incl (pp := PP.ofView u v) L.hn inn
+  have wr := walk_incl (pp := PP.ofView u v) L.hr ir
+  obtain ⟨qe', hqe', hqw⟩ := C03.question_walk h
+  have hqe : qe' = L.qe := nameEnds_functional hqe' L.hq.1
+  subst hqe
+  have hqm := collectWalk_mono _ _ _ hqw (sectionFuel - 2)
+  have e2 : 2 + (sectionFuel - 2) = sectionFuel := by unfold sectionFuel; omega
+  rw [e2] at hqm
+  obtain ⟨⟨qls, hvq⟩, hq4u⟩ := L.hq
+  have hlt6 := get16_lt u 6
+  have hlt8 := get16_lt u 8
+  have hlt10 := get16_lt u 10
+  have hH : (u.take 12).length = 12 := by simp; omega
+  have hq4 : ((u.drop L.qe).take 4).length = 4 := length_take_drop hq4u
+  -- the start of the call
+  have hstart : ∀ k : SuffixDict × Bytes → Res Bytes,
+      (renameWithRawNames (PP.ofView u v) (encLabels tgt ++ [0]) (encLabels src ++ [0]) sfx) =
+      (do
+        let st ← walkFold (PP.ofView u v) nextQuestion (renameQuestionItem (PP.ofView u v) (encLabels tgt ++ [0]) (encLabels src ++ [0]) sfx)
+          sectionFuel (Cursor.new .question) ({}, u.take 12)
+        let st ← walkFold (PP.ofView u v) nextIncludingOpt (renameResponseItem (PP.ofView u v) (encLabels tgt ++ [0]) (encLabels src ++ [0]) sfx)
+          sectionFuel (Cursor.new .answer) st
+        let st ← walkFold (PP.ofView u v) nextIncludingOpt (renameResponseItem (PP.ofView u v) (encLabels tgt ++ [0]) (encLabels src ++ [0]) sfx)
+          sectionFuel (Cursor.new .nameServers) st
+        let st ← walkFold (PP.ofView u v) nextIncludingOpt (renameResponseItem (PP.ofView u v) (encLabels tgt ++ [0]) (encLabels src ++ [0]) sfx)
+          sectionFuel (Cursor.new .additional) st
+        pure st.2) := by
+    intro _
+    unfold renameWithRawNames
+    have ht1 := ht.len; have hs1 := hs.len
+    rw [wireLen_eq] at ht1 hs1
+    have c1 : (decide ((encLabels tgt ++ [0]).length ≤ 0) || decide ((encLabels src ++ [0]).length ≤ 0)) = false := by simp
+    have c2 : (decide ((encLabels tgt ++ [0]).length > DNS_MAX_HOSTNAME_LEN) ||
+        decide ((encLabels src ++ [0]).length > DNS_MAX_HOSTNAME_LEN)) = false := by
+      consts; simp [encLabels_length]; omega
+    simp only [failIf, c1, c2, Bool.false_eq_true, if_false, bind_ok, DNS_HEADER_SIZE, PP.ofView,
+      slice_ok (p := u) (a := 0) (b := 12) ⟨by omega, by omega⟩, List.drop_zero, Nat.sub_zero]
+  rw [hstart (fun _ => .panic)]
+  rw [walkFold_collect _ _ _ _ hqm]
+  simp only [foldRes]
+  obtain ⟨qlsr, hqren, hqcase⟩ := rename_question (pp := PP.ofView u v) (by simpa [PP.ofView] using hvq)
+    (by simpa [PP.ofView] using hq4u) hs ht sfx {} (u.take 12) (C06.dictInv_empty _)
+  cases hqcase with
+  | inr hq =>
+    obtain ⟨herr, hbig⟩ := hq
+    right
+    refine ⟨?_, Or.inl ⟨qls, qlsr, hvq, hqren, hbig⟩⟩
+    rw [herr]; rfl
+  | inl hq =>
+    obtain ⟨d1, qem, qls', hqrun, hqpos, hqci, hdq, hqval⟩ := hq
+    rw [hqrun]
+    simp only [Res.bind, bind_ok, PP.ofView] at hdq hqval ⊢
+    cases section_fold (pp := PP.ofView u v) hs ht sfx L.ha (by rw [L.na]; exact hlt6) wa d1 _ hdq with
+    | inr hA =>
+      obtain ⟨herr, r, hr, hov⟩ := hA
+      right
+      refine ⟨by simp only [PP.ofView] at herr; rw [herr]; rfl, Or.inr ⟨r, by simp [hr], hov⟩⟩
+    | inl hA =>
+      obtain ⟨d2, ema, fa, hda, halla⟩ := hA
+      simp only [PP.ofView] at fa hda halla
+      rw [fa]
+      simp only [bind_ok]
+      cases section_fold (pp := PP.ofView u v) hs ht sfx L.hn (by rw [L.nn]; exact hlt8) wn d2 _ hda with
+      | inr hN =>
+        obtain ⟨herr, r, hr, hov⟩ := hN
+        right
+        refine ⟨by simp only [PP.ofView] at herr; rw [herr]; rfl, Or.inr ⟨r, by simp [hr], hov⟩⟩
+      | inl hN =>
+        obtain ⟨d3, emn, fn, hdn, halln⟩ := hN
+        simp only [PP.ofView] at fn hdn halln
+        rw [fn]
+        simp only [bind_ok]
+        cases section_fold (pp := PP.ofView u v) hs ht sfx L.hr (by rw [L.nr]; exact hlt10) wr d3 _ hdn with
+        | inr hR =>
+          obtain ⟨herr, r, hr, hov⟩ := hR
+          right
+          refine ⟨by simp only [PP.ofView] at herr; rw [herr]; rfl, Or.inr ⟨r, by simp [hr], hov⟩⟩
+        | inl hR =>
+          obtain ⟨d4, emr, fr, hdr, hallr⟩ := hR
+          simp only [PP.ofView] at fr hdr hallr
+          rw [fr]
+          simp only [bind_ok, pure_eq]
+          left
+          generalize hc : u.take 12 ++ (qem ++ (u.drop L.qe).take 4) ++ ema ++ emn ++ emr = c
+          obtain ⟨b1, _⟩ := L.ha.bounds
+          obtain ⟨b2, _⟩ := L.hn.bounds
+          obtain ⟨b3, _⟩ := L.hr.bounds
+          have hqgt : 12 < L.qe := hvq.2.1.lt
+          have hclen : c.length = 12 + (qem.length + 4) + ema.length + emn.length + emr.length := by
+            rw [← hc]; simp only [List.length_append, hH, hq4]
+          have hagH : Agree u c 0 0 12 := by
+            have := agree_of_eq (p := u) (u := c) (A := []) (B := (qem ++ (u.drop L.qe).take 4) ++ ema ++ emn ++ emr) (a := 0) (n := 12)
+              (by rw [← hc]; simp) (by omega)
+            simpa using this
+          have hg16 : ∀ i, i + 2 ≤ 12 → get16 c i = get16 u i := by
+            intro i hi
+            have := hagH.get16 (i := i) hi
+            simpa using this
+          have hvqc : ValidName c 12 qls' (12 + qem.length) := by
+            have := hqval (ema ++ emn ++ emr)
+            rw [hH] at this
+            have e : u.take 12 ++ (qem ++ (u.drop L.qe).take 4) ++ (ema ++ emn ++ emr) = c := by rw [← hc]; simp
+            rw [e] at this; exact this
+          have hA : (u.take 12 ++ qem).length = 12 + qem.length := by rw [List.length_append, hH]
+          have hagQ : Agree u c L.qe (12 + qem.length) 4 := by
+            have := agree_of_eq (p := u) (u := c) (A := u.take 12 ++ qem) (B := ema ++ emn ++ emr)
+              (a := L.qe) (n := 4) (by rw [← hc]; simp) (by omega)
+            rw [hA] at this; exact this
+          have hclass : get16 c (12 + qem.length + 2) = 1 := by rw [hagQ.get16 (i := 2) (by omega)]; exact hclW
+          have hwinQ : (c.drop (12 + qem.length)).take 4 = (u.drop L.qe).take 4 := by
+            have := window_eq (u := c) (A := u.take 12 ++ qem) (w := (u.drop L.qe).take 4) (B := ema ++ emn ++ emr)
+              (by rw [← hc]; simp)
+            rw [hA, hq4] at this; exact this
+          have hpre1 : (u.take 12 ++ (qem ++ (u.drop L.qe).take 4)).length = 12 + qem.length + 4 := by
+            simp only [List.length_append, hH, hq4]; omega
+          obtain ⟨la', rla, cla, tla⟩ := halla (emn ++ emr)
+          have eu1 : u.take 12 ++ (qem ++ (u.drop L.qe).take 4) ++ ema ++ (emn ++ emr) = c := by rw [← hc]; simp
+          rw [eu1] at rla cla tla
+          rw [hpre1] at rla
+          obtain ⟨ln', rln, cln, tln⟩ := halln emr
+          rw [hc] at rln cln tln
+          have hpre2 : (u.take 12 ++ (qem ++ (u.drop L.qe).take 4) ++ ema).length = 12 + qem.length + 4 + ema.length := by
+            rw [List.length_append, hpre1]
+          rw [hpre2] at rln
+          obtain ⟨lr', rlr, clr, tlr⟩ := hallr []
+          have eu3 : u.take 12 ++ (qem ++ (u.drop L.qe).take 4) ++ ema ++ emn ++ emr ++ [] = c := by rw [← hc]; simp
+          rw [eu3] at rlr clr tlr
+          have hpre3 : (u.take 12 ++ (qem ++ (u.drop L.qe).take 4) ++ ema ++ emn).length =
+              12 + qem.length + 4 + ema.length + emn.length := by rw [List.length_append, hpre2]
+          rw [hpre3] at rlr
+          have hend : 12 + qem.length + 4 + ema.length + emn.length + emr.length = c.length := by rw [hclen]; omega
+          rw [hend] at rlr
+          have c6 : la'.length = get16 c 6 := by rw [cla.length, L.na, hg16 6 (by omega)]
+          have c8 : ln'.length = get16 c 8 := by rw [cln.length, L.nn, hg16 8 (by omega)]
+          have c10 : lr'.length = get16 c 10 := by rw [clr.length, L.nr, hg16 10 (by omega)]
+          refine ⟨c, rfl, ?_, ?_, ?_⟩
+          · refine ⟨by omega, by rw [hg16 4 (by omega)]; exact hqd, 12 + qem.length, ⟨qls', hvqc⟩, by omega, hclass, ?_,
+              12 + qem.length + 4 + ema.length, L.o2, 12 + qem.length + 4 + ema.length + emn.length, L.o3, L.o4, ?_, ?_, ?_⟩
+            · rw [hg16 2 (by omega), hg16 6 (by omega), hg16 8 (by omega)]; exact hqr
+            · rw [← c6]; exact rla.to_RRs
+            · rw [← c8]; exact rln.to_RRs
+            · rw [← c10]; exact rlr.to_RRs
+          · rw [← hc]
+            simp only [List.append_assoc]
+            rw [List.take_append_of_le_length (by omega), List.take_of_length_le (by omega)]
+          · exact ⟨⟨12 + qem.length, la', ln', lr', _, _, _, _, _, ⟨⟨qls', hvqc⟩, by omega⟩, rla, rln, rlr, c6, c8, c10⟩,
+              ⟨qls, qlsr, qls', hvq, hqren, hvqc, hqci, hwinQ⟩, cla, cln, clr⟩
+
+end Dns.C07
+
+namespace Dns.C07
+open Dns Res
+
+theorem renamed_self {src ls ls' : List (List UInt8)} {sfx : Bool} (h : Renamed src src sfx ls ls') : lsCi ls' ls := by
+  cases h with
+  | hit a b hci _ => exact (lsCi.refl a).append hci.symm
+  | miss _ _ => exact lsCi.refl _
+
+theorem rdRen_self {src : List (List UInt8)} {sfx : Bool} {u B : Bytes} {t l rs l' rs' : Nat}
+    (h : RdRen (Renamed src src sfx) u B t l rs l' rs') : RdCi u B t l rs l' rs' := by
+  unfold RdRen at h
+  unfold RdCi
+  by_cases hns : t = 2 ∨ t = 5 ∨ t = 12
+  · simp only [hns, if_true] at h ⊢
+    obtain ⟨ls, lsr, ls', h1, h2, h3, h4⟩ := h
+    exact ⟨ls, ls', h1, h3, h4.trans (renamed_self h2)⟩
+  simp only [hns, if_false] at h ⊢
+  by_cases hmx : t = 15
+  · simp only [hmx, if_true] at h ⊢
+    obtain ⟨hp, ls, lsr, ls', h1, h2, h3, h4⟩ := h
+    exact ⟨hp, ls, ls', h1, h3, h4.trans (renamed_self h2)⟩
+  simp only [hmx, if_false] at h ⊢
+  by_cases hsoa : t = 6
+  · simp only [hsoa, if_true] at h ⊢
+    obtain ⟨l1, l2, l1r, l2r, l1', l2', e1, e1', h1, h2, r1, r2, h3, h4, c1, c2, hm⟩ := h
+    exact ⟨l1, l2, l1', l2', e1, e1', h1, h2, h3, h4, c1.trans (renamed_self r1), c2.trans (renamed_self r2), hm⟩
+  · simpa [hsoa] using h
+
+theorem recRen_self {src : List (List UInt8)} {sfx : Bool} {u B : Bytes} {r r' : RecPos}
+    (h : RecRen (Renamed src src sfx) u r B r') : RecCi u r B r' := by
+  obtain ⟨owner, ownr, owner', h1, h2, h3, h4, h5, h6⟩ := h
+  exact ⟨owner, owner', h1, h3, h4.trans (renamed_self h2), h5, rdRen_self h6⟩
+
+theorem runRen_self {src : List (List UInt8)} {sfx : Bool} {u B : Bytes} {l l' : List RecPos}
+    (h : RunRen (Renamed src src sfx) u B l l') : RunCi u B l l' := by
+  induction h with
+  | nil => exact RunCi.nil
+  | cons hr _ ih => exact RunCi.cons (recRen_self hr) ih
+
+/-- **renaming a name to itself**: never fails, and the result is the input up to the case of names -/
+theorem rename_self {u : Bytes} {v : View} (h : parse u = .ok v) (L : C03.Layout u) {src : List (List UInt8)}
+    (hs : ArgName src) (sfx : Bool) :
+    ∃ c, renameWithRawNames (PP.ofView u v) (encLabels src ++ [0]) (encLabels src ++ [0]) sfx = .ok c ∧ WF c ∧
+      c.take 12 = u.take 12 ∧
+      ∃ L' : C03.Layout c,
+        (∃ ls ls', ValidName u 12 ls L.qe ∧ ValidName c 12 ls' L'.qe ∧ lsCi ls' ls ∧
+          (c.drop L'.qe).take 4 = (u.drop L.qe).take 4) ∧
+        RunCi u c L.answers L'.answers ∧ RunCi u c L.authority L'.authority ∧ RunCi u c L.additional L'.additional := by
+  rcases rename_spec h L hs hs sfx with ⟨c, hc, hwf, hhdr, L', ⟨ls, lsr, ls', q1, q2, q3, q4, q5⟩, ra, rn, rr⟩ | ⟨_, hov⟩
+  · exact ⟨c, hc, hwf, hhdr, L', ⟨ls, ls', q1, q3, q4.trans (renamed_self q2), q5⟩, runRen_self ra, runRen_self rn, runRen_self rr⟩
+  · exfalso
+    rcases hov with ⟨ls, lsr, hv, hr, hbig⟩ | ⟨r, _, off, e, ls, lsr, _, _, hv, hr, hbig⟩
+    · have := (renamed_self hr).wireLen
+      have := hv.2.2.1
+      omega
+    · have := (renamed_self hr).wireLen
+      have := hv.2.2.1
+      omega
+
+/-! non-vacuity (kernel evaluation of the model): in the sample packet of C02, renaming `a` to `bb`
+rewrites the question and, through the pointer, the answer's owner name -/
+example : (parsePP C02.okPacket >>= fun pp => renameWithRawNames pp [2, 98, 98, 0] [1, 97, 0] false) =
+    .ok [0,7,0x80,0, 0,1, 0,1, 0,0, 0,1,  2,98,98,0, 0,1, 0,1,  0xc0,12, 0,1, 0,1, 0,0,0,9, 0,4, 1,2,3,4,
+         0, 0,41, 4,0xd0, 0,0,0,0, 0,6, 0,10,0,2,7,7] := by decide +kernel
+
 end Dns.C07
